@@ -203,6 +203,36 @@ func C20_Literals() {
 	// bytes are identifiers/operators, not literals
 	c0 := lit[0]
 	vf.Assume(vf.Or(vf.Or(vf.And(c0 >= '0', c0 <= '9'), c0 == '.'), vf.Or(vf.Or(c0 == '\'', c0 == '"'), c0 == '`')))
+	c20CheckLiteral(lit)
+	vf.Reach("literals")
+}
+
+// literalFrames: a prefix and a suffix around 1..3 arbitrary bytes, so that
+// the bytes land inside an escape sequence, a based or exponent number, or a
+// multi-byte character of a longer literal.
+var literalFrames = [][2]string{
+	{"'\\x", "'"}, {"'\\", "'"}, {"'\\u00", "'"}, {"'\\1", "'"}, {"'", "'"},
+	{"\"\\x", "\""}, {"\"\\", "\""}, {"\"a", "b\""},
+}
+
+// C20_LiteralFrames: the same agreement with Go's literal syntax for 1..2
+// (thorough: 3) arbitrary bytes placed inside 8 char and string literal
+// frames (hex, octal, unicode and single-character escapes, multi-byte runes).
+func C20_LiteralFrames() {
+	fr := literalFrames[vf.Choice("frame", len(literalFrames))]
+	maxN := 2
+	if Tier() > 0 {
+		maxN = 3
+	}
+	n := 1 + vf.Choice("n", maxN)
+	mid := vf.Bytes("lit", n)
+	lit := append(append([]byte(fr[0]), mid...), fr[1]...)
+	c20CheckLiteral(lit)
+	vf.Reach("literalframes")
+}
+
+func c20CheckLiteral(lit []byte) {
+	n := len(lit)
 	var file *parser.File
 	var err error
 	res := vf.Guard(func() { file, err = parseSrc(append([]byte(nil), lit...)) }, 3000000)
@@ -284,7 +314,7 @@ func C20_Literals() {
 			}
 		}
 	}
-	vf.Reach("literals")
+	_ = n
 }
 
 // ---- print / re-parse
